@@ -304,7 +304,10 @@ def _main(pid, a, seed):
         case = b['case']
         viol = b['viol']
         if not a.no_shrink:
-            case, viol = shrink.shrink(prop, case, sig, viol, findings, pid)
+            try:
+                case, viol = shrink.shrink(prop, case, sig, viol, findings, pid)
+            except Exception:      # pylint: disable=broad-except
+                pass        # a shrinker problem must never hide the violation: report the unshrunk witness
         path = os.path.join('replays', 'found', '%s-%s.json' % (pid, model.digest(sig)))
         with open(os.path.join(VERIF, path), 'w') as f:
             json.dump(dict(property=pid, sig=sig, violation=viol, count=b['count'], case=case,
